@@ -24,7 +24,7 @@ ASSUMPTIONS = [
     "a v2 deposit whose positive price impact (paid from the impact pool) exceeds the fees makes the round trip profitable by design of the protocol model: recorded as a known finding, bounded by the applied impact",
 ]
 MIN_NONTRIVIAL = {"quick": 8000, "thorough": 150000}
-REQUIRED_LABELS = ["v1.branch.rebate", "v1.branch.tax", "v1.branch.flat", "v1.dec.6", "v1.dec.8", "v1.dec.18", "v1.roundtrip", "v1.oversell.rejected", "v1.reward", "v2.impact.positive", "v2.impact.negative", "v2.impact.capped", "v2.crossover", "v2.roundtrip", "v2.overwithdraw.rejected", "v2.virtual_used"]
+REQUIRED_LABELS = ["v1.branch.rebate", "v1.branch.tax", "v1.branch.flat", "v1.dec.6", "v1.dec.8", "v1.dec.18", "v1.roundtrip", "v1.oversell.rejected", "v1.reward", "v2.impact.positive", "v2.impact.negative", "v2.impact.capped", "v2.crossover", "v2.roundtrip", "v2.overwithdraw.rejected", "v2.virtual_used", "v1.newrow"]
 
 BASE_PRICE = {"btc.b": 66066, "weth": 2629, "wbtc": 66066, "wavax": 29, "mim": 1, "usdc.e": 1, "usdc": 1}
 WEIGHTS = {"btc.b": 20000, "weth": 20000, "wbtc": 3000, "wavax": 10000, "mim": 1, "usdc.e": 1000, "usdc": 46000}
@@ -48,7 +48,7 @@ def st_v1(draw):
     aum = int(glp * gp * 10**12)
     ops = []
     for _ in range(draw(st.integers(1, 8))):
-        k = draw(st.sampled_from(["buy", "buy", "buy", "sell", "sell", "bar", "roundtrip"]))
+        k = draw(st.sampled_from(["buy", "buy", "buy", "sell", "sell", "bar", "roundtrip", "newrow"]))
         n = draw(st.sampled_from(names))
         t = next(x for x in tokens if x["name"] == n)
         target = WEIGHTS[n] * usdg_total // tw
@@ -61,6 +61,9 @@ def st_v1(draw):
             ops.append([k, n, amt_s])
         elif k == "sell":
             ops.append(["sell", n, draw(st.sampled_from([["held", "0.5"], ["held", "1"], ["held", "1.000001"], ["held", "10"], ["all"], ["abs", "1"], ["abs", "0.000001"]]))])
+        elif k == "newrow":
+            # the next bar's row: token weights (hence every target amount), a price and a USDG amount have moved
+            ops.append(["newrow", n, draw(st.sampled_from([2, 3, 7])), draw(st.sampled_from(["0.9", "1.1"]))])
         else:
             ops.append(["bar"])
     wallet = {n: draw(st.sampled_from(["0", "1", "1000", "1000000000000"])) for n in names}
@@ -68,7 +71,10 @@ def st_v1(draw):
 
 
 def body_v1(case, ctx: Ctx):
+    import copy
+
     broker, m, toks, actions, row = gmx.v1_market(case, case["wallet"])
+    cur = copy.deepcopy(case)  # the row the market currently stands on (a 'newrow' op moves it)
     labels = set()
     nontrivial = False
     supply = int(Decimal(case["glp"]))
@@ -79,8 +85,8 @@ def body_v1(case, ctx: Ctx):
         if got is None:
             return None
         got = Fraction(Decimal(got))
-        rule = gmx.v1_fee_bps(case, n, usdg_delta, increase)
-        br = gmx.v1_branch(case, n, usdg_delta, increase)
+        rule = gmx.v1_fee_bps(cur, n, usdg_delta, increase)
+        br = gmx.v1_branch(cur, n, usdg_delta, increase)
         labels.add(f"v1.branch.{br}")
         if br != "flat":
             nontrivial = True
@@ -90,7 +96,7 @@ def body_v1(case, ctx: Ctx):
 
     def do_buy(n, amt: Decimal):
         held0, wal0 = m.glp_amount, broker.assets[toks[n]].balance
-        usdg0, _ = gmx.v1_buy(case, n, Fraction(amt), Fraction(0))
+        usdg0, _ = gmx.v1_buy(cur, n, Fraction(amt), Fraction(0))
         bps = bps_checks(n, usdg0, True)
         if bps is None:
             return None
@@ -103,7 +109,7 @@ def body_v1(case, ctx: Ctx):
         if not ok:
             labels.add("v1.buy.rejected")
             return None
-        _, glp_wei = gmx.v1_buy(case, n, Fraction(amt), bps)
+        _, glp_wei = gmx.v1_buy(cur, n, Fraction(amt), bps)
         got_wei = Fraction(Decimal(ret)) * 10**18
         ctx.check(abs(got_wei - glp_wei) <= 2 + Fraction(glp_wei, 10**30), "v1.buy.minted", lambda: f"buy_glp({n}, {amt}) minted {ret} GLP; price x amount / value per share with round-downs gives {Decimal(glp_wei) / 10**18} (fee {float(bps)} bp, token decimals {gmx.V1_TOKENS[n]})", case)
         ctx.check(abs(m.glp_amount - held0 - ret) <= Decimal("1e-32") * max(held0, ret, Decimal(1)), "v1.buy.holding", lambda: f"holding {held0} -> {m.glp_amount}, returned {ret}", case)
@@ -128,11 +134,11 @@ def body_v1(case, ctx: Ctx):
             return None
         if not ok or req == 0:
             return None
-        usdg = gmx.v1_sell_usdg(case, Fraction(req))
+        usdg = gmx.v1_sell_usdg(cur, Fraction(req))
         bps = bps_checks(n, usdg, False)
         if bps is None:
             return None
-        exp = gmx.v1_sell_out(case, n, usdg, bps)
+        exp = gmx.v1_sell_out(cur, n, usdg, bps)
         got = Fraction(Decimal(ret))
         ctx.check(abs(got - exp) <= Fraction(2, 10**18) + exp / 10**28, "v1.sell.redeemed", lambda: f"sell_glp({n}, {req}) paid {ret}; value per share / price with round-downs gives {float(exp)!r} (fee {float(bps)} bp, token decimals {gmx.V1_TOKENS[n]})", case)
         ctx.check(abs(held0 - m.glp_amount - req) <= Decimal("1e-32") * max(held0, Decimal(1)), "v1.sell.holding", lambda: f"holding {held0} -> {m.glp_amount} for a sale of {req}", case)
@@ -157,6 +163,18 @@ def body_v1(case, ctx: Ctx):
                 if back is not None:
                     labels.add("v1.roundtrip")
                     ctx.check(back <= amt, "v1.roundtrip.profit", lambda: f"buy_glp({n}, {amt}) then sell_glp of the {got} GLP returned {back} > paid", case)
+        elif op[0] == "newrow":
+            from demeter import MarketStatus
+            import pandas as pd
+
+            t = next(x for x in cur["tokens"] if x["name"] == op[1])
+            t["weight"] = int(t["weight"]) * op[2]
+            t["usdg"] = str(int(Fraction(op[3]) * int(t["usdg"])))
+            cur["usdg"] = str(sum(int(x["usdg"]) for x in cur["tokens"]))
+            r = gmx.v1_row(cur)
+            price = pd.Series({"WETH": r["weth_price"] / gmx.P30, "WAVAX": r["wavax_price"] / gmx.P30})
+            ctx.guarded("v1.newrow", case, m.set_market_status, MarketStatus(pd.Timestamp("2024-10-15") + pd.Timedelta(minutes=len(labels) + 1), r), price)
+            labels.add("v1.newrow")
         else:
             r0 = m.reward
             ok = ctx.guarded("v1.update", case, lambda: (m.update(), True)[1])
